@@ -313,6 +313,9 @@ def encoder_slots(repo: Repo, module: Module, clsname: str, method: str = "encod
     fn = ci.methods.get(method)
     if fn is None:
         raise AnalysisError(f"{module.relpath}: {clsname}.{method} vanished")
+    if clsname == "HeaderEncoder" and method == "encode":
+        # headers: the bytes as built (possibly from several packs and constant prefixes joined together)
+        return header_encoding(repo, module)[0], []
     ev = B.Ev(repo, module, ci)
     problems = []
     def packs_here(stmts):
@@ -395,3 +398,78 @@ def encoder_slots(repo: Repo, module: Module, clsname: str, method: str = "encod
     if packed is None:
         raise AnalysisError(f"{module.relpath}: {clsname}.{method}: pack call not evaluated")
     return packed, problems
+
+
+# ------------------------------------------------------------------------------------------ header encoders: bytes as built
+def flatten_bytes(v) -> B.Packed:
+    """One virtual Packed for a byte string built from struct packs and constant bytes joined with `+` (standard-size big-endian
+    formats have no alignment, so the concatenation of two packs is the pack of the concatenated formats)."""
+    if isinstance(v, B.Packed):
+        return v
+    parts = v.parts if isinstance(v, B.Cat) else [v]
+    fmt, args = "", []
+    for p in parts:
+        if isinstance(p, B.Packed):
+            f = p.struct.fmt
+            if not f or f[0] not in "!>":
+                raise AnalysisError(f"struct format {f!r} is not big-endian standard size: concatenation not modelled")
+            fmt += f[1:]
+            args += list(p.args)
+        elif isinstance(p, B.Py) and isinstance(p.v, (bytes, bytearray)):
+            fmt += f"{len(p.v)}s"
+            args.append(B.Py(bytes(p.v)))
+        else:
+            raise AnalysisError(f"byte string part {type(p).__name__} is not a struct pack or constant bytes")
+    return B.Packed(StructVal("!" + fmt), args)
+
+
+def byte_descr(v) -> list:
+    """Per byte of a built byte string: a tuple of its 8 bit sources (0 | 1 | (name, k)), or a tag for values outside the bit domain."""
+    if isinstance(v, B.Span):
+        return byte_descr(v.base)[v.lo:v.hi]
+    if isinstance(v, B.Cat):
+        out = []
+        for p in v.parts:
+            out += byte_descr(p)
+        return out
+    if isinstance(v, B.Py) and isinstance(v.v, (bytes, bytearray)):
+        return [tuple((b >> k) & 1 for k in range(8)) for b in v.v]
+    if isinstance(v, B.Packed):
+        st = v.struct
+        out = [tuple([0] * 8) for _ in range(st.size)]
+        for sl, a in zip(st.slots, v.args):
+            if isinstance(a, B.Py) and isinstance(a.v, (bytes, bytearray)):
+                for i in range(sl.size):
+                    by = a.v[i] if i < len(a.v) else 0
+                    out[sl.offset + i] = tuple((by >> k) & 1 for k in range(8))
+            elif isinstance(a, B.BV):
+                for j in range(sl.size):
+                    idx = j if st.byteorder == "little" else sl.size - 1 - j
+                    out[sl.offset + idx] = tuple(a.bit(8 * j + k) for k in range(8))
+            else:
+                for j in range(sl.size):
+                    out[sl.offset + j] = ("value", repr(a), j)
+        return out
+    if isinstance(v, B.Sym):
+        return [("opaque", v.name)]
+    raise AnalysisError(f"byte layout of {type(v).__name__} is not modelled")
+
+
+def header_encoding(repo: Repo, module: Module):
+    """(header bytes as one Packed, byte descriptors of header_bytes, byte descriptors of checksum_data) of HeaderEncoder.encode,
+    evaluated in the bit domain - however many struct packs and concatenations build the header."""
+    ci = module.get_class("HeaderEncoder")
+    fn = ci.methods.get("encode") if ci else None
+    if fn is None or len(fn.args.args) != 2:
+        raise AnalysisError(f"{module.relpath}: HeaderEncoder.encode(self, header) vanished")
+    hp = fn.args.args[1]
+    hci = repo.resolve_class(module, hp.annotation) if hp.annotation is not None else None
+    ev = B.Ev(repo, module, ci)
+    try:
+        res = ev.invoke(fn, module, [B.Sym(hp.arg, hci)], {}, skip_self=True)
+    except B.Unsupported as ex:
+        raise AnalysisError(f"{module.relpath}: HeaderEncoder.encode left the bit domain: {ex}")
+    if not (isinstance(res, B.Obj) and "header_bytes" in res.fields and "checksum_data" in res.fields):
+        raise AnalysisError(f"{module.relpath}: HeaderEncoder.encode does not return one HeaderEncodeResult(header_bytes=, checksum_data=)")
+    hb, cd = res.fields["header_bytes"], res.fields["checksum_data"]
+    return flatten_bytes(hb), byte_descr(hb), byte_descr(cd)
